@@ -222,7 +222,8 @@ class LogicalType(type):  # noqa
                 )
                 arg = cls._parse_arg(arg)
                 registered = True
-            elif isinstance(arg, LogicalType) and arg.combinator:
+            elif isinstance(arg, LogicalType):
+                # (also a type with args of its own, like cond | List['ref'])
                 if arg.register_forward_refs(
                     global_vars=global_vars,
                     forward_refs=forward_refs,
@@ -1422,13 +1423,13 @@ class Rule(metaclass=LogicalType):
                 if isinstance(arg, TypeVar):
                     type_cons: tuple = getattr(arg, "__constraints__", None)
                     if type_cons:
+                        # (goes on as an annotation: its constraints may be given by reference)
                         arg = LogicalType.any_of(*type_cons)
                     else:
                         # stand for any
                         # TODO: support type var validation
-                        arg = Rule
-                    args.append(arg)
-                    continue
+                        args.append(Rule)
+                        continue
 
                 if arg is ...:
                     if isinstance(type_, type) and not issubclass(type_, tuple):
@@ -1550,15 +1551,15 @@ class Rule(metaclass=LogicalType):
 
         # no constraints, we can directly use it
         if isinstance(annotation, LogicalType):
-            if annotation.combinator:
-                annotation.register_forward_refs(
-                    # we don't need to pass constraints here
-                    # as those will be combined in below logics
-                    global_vars=global_vars,
-                    forward_refs=forward_refs,
-                    forward_key=forward_key,
-                    force_clear=force_clear_refs
-                )
+            # (a combined type, or one built before it got here whose args hold references: Array['ref'])
+            annotation.register_forward_refs(
+                # we don't need to pass constraints here
+                # as those will be combined in below logics
+                global_vars=global_vars,
+                forward_refs=forward_refs,
+                forward_key=forward_key,
+                force_clear=force_clear_refs
+            )
             # do not detect origin for Logical types (including Rule)
             origin = None
         else:
@@ -1939,6 +1940,58 @@ class Rule(metaclass=LogicalType):
                 )
             )
         return value
+
+    @classmethod
+    def register_forward_refs(
+        cls,
+        global_vars: Dict[str, Any] = None,
+        forward_refs=None,
+        forward_key: str = None,
+        force_clear: bool = False
+    ):
+        # an override version of LogicalType.register_forward_refs: the references among the args of a type
+        # that was built before it reached the declaration (Array['ref'], cond | List['ref'])
+        registered = False
+        origin = cls.__origin__
+        if isinstance(origin, LogicalType) and origin.combinator:
+            if origin.register_forward_refs(
+                global_vars=global_vars,
+                forward_refs=forward_refs,
+                forward_key=forward_key,
+                force_clear=force_clear
+            ):
+                registered = True
+        if not cls.__args__:
+            return registered
+        args = []
+        arg_transformers = []
+        for i, (arg, trans) in enumerate(zip(cls.__args__, cls.__arg_transformers__)):
+            key = f"{forward_key}:{i}" if forward_key else str(i)
+            if isinstance(arg, ForwardRef):
+                arg = cls.parse_annotation(
+                    arg,
+                    global_vars=global_vars,
+                    forward_refs=forward_refs,
+                    forward_key=key,
+                    force_clear_refs=force_clear
+                )
+                registered = True
+                if not isinstance(arg, ForwardRef):
+                    trans = cls.transformer_cls.resolver_transformer(arg) or trans
+            elif isinstance(arg, LogicalType):
+                if arg.register_forward_refs(
+                    global_vars=global_vars,
+                    forward_refs=forward_refs,
+                    forward_key=key,
+                    force_clear=force_clear
+                ):
+                    registered = True
+            args.append(arg)
+            arg_transformers.append(trans)
+        if registered:
+            cls.__args__ = tuple(args)
+            cls.__arg_transformers__ = tuple(arg_transformers)
+        return registered
 
     @classmethod
     def resolve_forward_refs(cls):
